@@ -167,6 +167,26 @@ Example C02_nonvacuous :
   nth 2 (sfl_of (hist (buy 69 4 6) true)) None = None.
 Proof. vm_compute. repeat split. Qed.
 
+(* Non-vacuity of the None case of C02_denied_amount that is new with the fix
+   "treat a superficial loss that rounds to zero effective cents as no
+   superficial loss": 2 shares bought at 1.0000000001 on day 100, half a share
+   sold at 1 on day 110 (loss 0.00000000005, all of it superficial by the
+   rule: ratio 1).  The run is ACCEPTED, two rows are reported, the sale
+   carries no superficial loss and no adjustment row follows; the same history
+   with a purchase price of 1.1 (loss 0.05) reports the superficial loss
+   -0.05 and one adjustment row. *)
+Definition tiny_hist (price : Z * positive) : list tx :=
+  [mk 100 (Buy (q 2 1) (q (fst price) (snd price)) (q 0 1) (q 1 1) (q 1 1));
+   mk 110 (Sell (q 1 2) (q 1 1) (q 0 1) (q 1 1) (q 1 1) None)].
+Example C02_rounds_to_zero_nonvacuous :
+  snd (run exact None (tiny_hist (10000000001, 10000000000%positive))) = None /\
+  sfl_of (tiny_hist (10000000001, 10000000000%positive)) = [None; None] /\
+  snd (run dec None (tiny_hist (10000000001, 10000000000%positive))) = None /\
+  map (fun d => is_none (d_sfl d)) (fst (run dec None (tiny_hist (10000000001, 10000000000%positive)))) = [true; true] /\
+  snd (run exact None (tiny_hist (11, 10%positive))) = None /\
+  sfl_of (tiny_hist (11, 10%positive)) = [None; Some ((-1, 20%positive), (1, 2%positive)); None].
+Proof. vm_compute. repeat split. Qed.
+
 (* ======================================================================
    Scans without rounding (Proofs/DecScan.v, on the transfer principle of
    Proofs/DecTransfer.v).  [scan_inputs_small bef t sold aft st] is the
